@@ -158,17 +158,17 @@ def _explore(args):
         def once(strategy):
             return Run(run_scenario(sc, strategy, line_level))
         for s in ds.explore(once, max_preemptions=2, max_runs=nruns):
-            out.append((s.res['choices'], alpha(s.res, sc)))
+            out.append((s.res['choices'], alpha(s.res, sc), line_level))
     elif mode == 'corpus':
         # schedules that exposed a defect once (corpus/C11.json): replayed on every run
         for entry in json.loads((core.VERIF / 'corpus' / 'C11.json').read_text()):
             if entry['scenario'] == name:
-                r = run_scenario(sc, ds.GuidedStrategy(entry['choices']), line_level)
-                out.append((r['choices'], alpha(r, sc)))
+                r = run_scenario(sc, ds.GuidedStrategy(entry['choices']), bool(entry.get('line_level')))
+                out.append((r['choices'], alpha(r, sc), bool(entry.get('line_level'))))
     else:
         for k in range(nruns):
             r = run_scenario(sc, ds.RandomStrategy(seed * 7919 + k, stay=0.3 + 0.5 * ((seed + k) % 3) / 2), line_level)
-            out.append((r['choices'], alpha(r, sc)))
+            out.append((r['choices'], alpha(r, sc), line_level))
     return name, out
 
 
@@ -250,19 +250,22 @@ def run(chk):
             jobs.append((name + '@reset', 'dfs', chk.seed, 80 if quick else 1500, False))
         if not quick:
             jobs.append((name, 'rnd', chk.seed * 17 + 5, 400, True))    # line-level preemption
+        elif 'late' in sc or name.startswith('timeout'):
+            jobs.append((name, 'rnd', chk.seed * 17 + 5, 60, True))     # (time-out housekeeping: also in quick)
     for name in sorted({e['scenario'] for e in json.loads((core.VERIF / 'corpus' / 'C11.json').read_text())}):
         jobs.append((name, 'corpus', 0, 0, False))
     results = pool_map(_explore, jobs, chunksize=1)
-    traces, origin = [], []
+    traces, origin, lines = [], [], {}
     seen = set()
     for name, out in results:
-        for choices, tr in out:
-            k = (name, tuple(choices))
+        for choices, tr, ll in out:
+            k = (name, ll, tuple(choices))
             if k in seen:
                 continue
             seen.add(k)
             traces.append(tr)
             origin.append((name, choices))
+            lines[len(traces) - 1] = ll
     verdicts, st, trn, extra = validate_traces('Trace_ClientObs', traces, 'Trace_ClientObs.cfg', timeout=1200,
                                               collect=('DEVS',))
     chk.states += st
@@ -283,8 +286,8 @@ def run(chk):
             sig = {'module': 'ClientObs', 'event': ev.get('ev'), 'kind': ev.get('kind') or ev.get('exc') or
                    (','.join(ev.get('left', []) + ev.get('excs', [])) if ev.get('ev') == 'end' else ''),
                    'scenario_faults': sorted(k for k in ('drop', 'user', 'ignore', 'streaming') if sc.get(k))}
-            chk.violation(sig, {'scenario': name, 'choices': choices, 'failed_at': l, 'event': ev,
-                                'trace': traces[i]})
+            chk.violation(sig, {'scenario': name, 'choices': choices, 'line_level': lines.get(i, False), 'failed_at': l,
+                                'event': ev, 'trace': traces[i]})
     count = {}
     for i, d in devs_by_trace.items():
         if verdicts.get(i) is not None:
@@ -293,7 +296,7 @@ def run(chk):
         for dev in sorted(d):
             count[dev] = count.get(dev, 0) + 1
             chk.violation({'module': 'ClientObs', 'deviation': dev},
-                          {'scenario': name, 'choices': choices, 'trace': traces[i]})
+                          {'scenario': name, 'choices': choices, 'line_level': lines.get(i, False), 'trace': traces[i]})
     chk.notes['deviations_needed'] = count
     if traces:
         chk.sample({'scenario': origin[0][0], 'choices': origin[0][1][:30], 'trace': traces[0][:12]})
@@ -304,7 +307,7 @@ def replay(chk, rep):
     from .. import detsched as ds
     from ..clientworld import run_scenario
     d = rep['detail']
-    r = run_scenario(scenario(d['scenario']), ds.GuidedStrategy(d['choices']))
+    r = run_scenario(scenario(d['scenario']), ds.GuidedStrategy(d['choices']), bool(d.get('line_level')))
     for e in alpha(r, scenario(d['scenario'])):
         print(e)
     print('thread exceptions:', r['thread_exc'], 'left:', r['left'])
